@@ -75,6 +75,55 @@ def inspect_class_bases_table(prog: Program, ctx: Ctx, rule: str) -> None:
 
 
 
+class _Proxy:
+    """A chainable proxy, as RPC / ORM / builder libraries have them: every attribute exists (also `__name__`) and is another proxy."""
+
+    def __getattr__(self, name: str) -> "_Proxy":
+        return self
+
+    def __repr__(self) -> str:
+        return "<proxy>"
+
+
+def inspected_values_table(prog: Program, ctx: Ctx, rule: str) -> None:
+    """What the inspector stores as the value of an attribute and as the default of a parameter is text (shared by C17-R14 and C09-R3)."""
+    import inspect as _insp
+
+    ctx.rule(rule, "the value the inspector records for an attribute and the default it records for a parameter are strings (or None), whatever the "
+                   "runtime object is - also an object that answers every attribute lookup, `__name__` included")
+    it = Interp(prog)
+    ha = prog.function(f"{I}.Inspector.handle_attribute")
+    cp = prog.function(f"{I}._convert_parameter")
+    made: list = []
+    it.class_stubs["_griffe.models.Attribute"] = lambda _i, **k: (made.append(k), Obj(prog.cls("_griffe.models.Attribute"), {"labels": set(), **k}))[1]
+    it.stubs[f"{I}.Inspector._get_docstring"] = lambda _i, *_a, **_k: None
+
+    def helper() -> None:
+        pass
+
+    for label, value in (("an integer", 1), ("a string", "s"), ("None", None), ("a list", [1, 2]), ("a function", helper), ("a proxy answering every attribute", _Proxy())):
+        made.clear()
+        cur = Obj(None, {"kind": it.enum("_griffe.enumerations.Kind", "MODULE"), "path": "m", "name": "m"}, label="m")
+        cur.attrs["set_member"] = Native(lambda _n, _v: None)
+        insp_o = Obj(prog.cls(f"{I}.Inspector"), {"extensions": Obj(None, {"call": Native(lambda *_a, **_k: None)}), "current": cur}, label="inspector")
+        try:
+            it.steps = 0
+            it.call(ha, insp_o, Obj(None, {"obj": value, "name": "x"}))
+            got: object = made[0].get("value") if made else "no attribute built"
+        except Raised as r:
+            got = f"raises {r.exc}"
+        ctx.ob(rule, f"attribute-value|{label}", got is None or isinstance(got, str), f"attribute bound to {label}: recorded value {got!r} ({type(got).__name__})", where(ha))
+        if value is None:
+            continue
+        try:
+            it.steps = 0
+            p_ = it.call(cp, _insp.Parameter("x", _insp.Parameter.POSITIONAL_OR_KEYWORD, default=value), Obj(None, {}))
+            gd: object = p_.attrs["default"]
+        except Raised as r:
+            gd = f"raises {r.exc}"
+        ctx.ob(rule, f"parameter-default|{label}", isinstance(gd, str), f"parameter whose default is {label}: recorded default {gd!r} ({type(gd).__name__})", where(cp))
+
+
 def run(prog: Program, ctx: Ctx) -> None:  # noqa: PLR0912,PLR0915
     insp = prog.cls(f"{I}.Inspector")
     it = Interp(prog)
@@ -337,4 +386,7 @@ def run(prog: Program, ctx: Ctx) -> None:  # noqa: PLR0912,PLR0915
                f"{got13}; expected {want13}", where(prog.lookup_method(node_cls, "children")[0]))
     for q13 in ("inspect.getmembers", "inspect.unwrap", "builtins.vars", "builtins.id"):
         it.ext_handlers.pop(q13, None)
+
+    # ------------------------------------------------------------------ R14 recorded values and defaults are text
+    inspected_values_table(prog, ctx, "R14")
 
